@@ -1097,7 +1097,15 @@ def piter(
     # The input_queue uses a max_batch_size of 1 to ensure that the output_queue
     # is not consuming too many elements that leads to imbalanced parallelism.
     max_batch_size = 1 if max_parallism > 1 and iterator_fn is not None else 0
-    thread_pool = _get_thread_pool(thread_pool)
+    if thread_pool is None:
+      # Every input enqueuer and every iterator_fn thread needs its own worker:
+      # otherwise the enqueuers can occupy all the workers while blocked on the
+      # bounded input queue that only the not yet started iterator_fn threads
+      # drain.
+      thread_pool = futures.ThreadPoolExecutor(
+          max_workers=len(input_iterators) + max(max_parallism, 1),
+          thread_name_prefix='piter',
+      )
     input_iterable = piter_multiplex(
         input_iterators,
         thread_pool=thread_pool,
